@@ -1,5 +1,7 @@
 package font
 
+import "strings"
+
 // Font represents a PDF font
 type Font struct {
 	Name     string
@@ -93,7 +95,8 @@ func (f *Font) DecodeString(data []byte) string {
 	}
 
 	// Priority 4: Fall back to raw bytes as string
-	decoded = string(data)
+	// (bytes that are not valid UTF-8 become U+FFFD so that the result is always valid UTF-8)
+	decoded = strings.ToValidUTF8(string(data), "\uFFFD")
 	return NormalizeUnicode(decoded)
 }
 
